@@ -1064,8 +1064,14 @@ Print Assumptions C02_detached_suspend_refuted.
     C02_atomic_brackets_generated is silent about them.  model/MultiInterleave.v part 3 splits these
     calls into [PStore o] (the store, no lock) and [PBracket b] (limiter, then the locked tick +
     draw).  EXPLICIT ASSUMPTION of C02_interleaving (and of every use of AtomicExec): AT MOST ONE
-    THREAD ISSUES inc / dec / set_position ON A GIVEN BAR AT A TIME (other threads may do anything
-    else, also on that bar).  Under it the two sections of a call are adjacent as far as that bar's
+    THREAD ISSUES inc / dec / set_position ON A GIVEN BAR AT A TIME, AND the templates are those of
+    Sys.v's alphabet (ONE position-dependent key group, PPos: a frame reads the counter once; with
+    {bar} / {percent} / {eta} next to {pos} a frame reads it several times and even one unlocked
+    writer tears it: open finding D33, C02_frame_single_state_refuted).  Other threads may run other
+    calls on that bar, but NOTE: a foreign bracket on the same bar BETWEEN the store and the bracket
+    of one inc is inside this assumption and outside C02_pos_sections_adjacent - no commutation
+    lemma is proved for it (the painted frames agree with the order [inc; foreign call], the
+    limiter time stamps may differ); prose only.  Under it the two sections of a call are adjacent as far as that bar's
     position is concerned, and adjacent sections ARE the atomic step: *)
 Theorem C02_pos_sections_adjacent : forall (W H : N) (fails : N -> bool) (s : sys) (now : N) (o : op) (b : N),
   (exists d, o = OInc b d \/ o = ODec b d \/ o = OSetPos b d) ->
@@ -1162,7 +1168,18 @@ Proof.
 Qed.
 
 (** ------------------------------------------------------------------------------------------
-    Round 5 - SEVERAL WRITERS PER BAR, positively (AUDIT3 finding 4, last item).
+    Round 5 - several writers per bar at SECTION granularity (AUDIT3 finding 4, last item).
+    READ THIS FIRST (AUDIT4 findings 2, 3): clauses (a)-(c) below are consequences of the way the
+    machine is DEFINED (append-only history; a paint logs the last entry); nothing in them could
+    fail for a machine of this shape.  What the development adds is (i) a written-down section
+    granularity of inc / dec / set_position and (ii) the CONDITIONAL statement: IF a concurrent
+    execution is a sequentially consistent LIST of such sections and IF a painted bracket shows ONE
+    value, the newest one in that list, THEN the position clause holds for any number of writers.
+    Both IFs are assumptions about the code, not theorems: the `pos` loads are Relaxed
+    (src/state.rs:149, :287, :308, :343) and the mutex orders brackets, not a bracket's load against
+    an unlocked store; and a frame of a template with several position-dependent key groups reads
+    the counter SEVERAL times (part 5, open finding D33: C02_frame_single_state_refuted).  The
+    second IF holds for Sys.v's template alphabet (one position-dependent group: PPos).
     model/MultiInterleave.v part 4: inc / dec / set_position at the granularity of the code -
     [QStore b w] (one atomic RMW / store on the counter, no lock), the position limiter's verdict as
     an ORACLE BIT of the call (its loads / stores of capacity / prev interleave arbitrarily between
@@ -1182,7 +1199,9 @@ Qed.
     (c) if a bracket on b paints at or after the last store on b (the store of finish* is inside
         its bracket), the last frame of b shows the final counter value (last index, [q_cnt]).
     Level: this is a theorem about the counter machine [qstep] (an abstraction of Sys.v to what
-    clause 3 says about positions: C02_pos_store_is_counter_write ties its writes to [pos_store]);
+    clause 3 says about positions: C02_pos_store_is_counter_write is DEFINITIONAL - [wr_apply] and
+    [pos_store] are the same three expressions -; the real link to Sys.v is C02_pos_sections_adjacent,
+    [PStore o; PBracket b] = Sys.step; the bracket half, QBracket vs bar_tick / frame_of, has no lemma);
     it is NOT glued to the rendering / screen theorems.  Relation to the rest: with ONE writer per bar
     the sections of a call are adjacent and equal the atomic step (C02_pos_sections_adjacent), i.e.
     the section model specialises to [AtomicExec]; the one-writer assumption is needed only for
@@ -1256,3 +1275,36 @@ Theorem C02_pos_last_store_unpainted_refuted :
   /\ last_shown (q_log (q_run st [QBracket 0 None true])) 0 = Some (2%nat, 2).
 Proof. vm_compute. repeat split. Qed.
 Print Assumptions C02_pos_last_store_unpainted_refuted.
+
+(** ------------------------------------------------------------------------------------------
+    Round 6 - READ granularity (AUDIT4 finding 3; open finding D33
+    `torn-position-read-within-one-frame`).  model/MultiInterleave.v part 5: inside one bracket the
+    counter is loaded once per position-dependent key group ({pos}/{human_pos}/bytes: style.rs:246;
+    {bar}/{wide_bar}/{percent}: state.fraction(), state.rs:286-287; {eta}/{per_sec}; the estimator:
+    state.rs:149) while the stores of other threads are not under the bar mutex.  [frame2 b ws] =
+    one frame of bar b with two reads and the foreign stores [ws] between them.
+    Refuted: the two reads of ONE frame can differ - the frame shows a state the bar never had
+    (exhibit on the implementation, deterministic: c02.rs `torn_position_read_exhibit`, template
+    "{pos} {slow} {percent}", frame "0 s 1"). *)
+Theorem C02_frame_single_state_refuted :
+  exists (c0 : N -> N) (b : N) (ws : list wr),
+    let st := q_run (q_init c0) (frame2 b ws) in
+    q_log st = [(b, 0%nat, 0); (b, 1%nat, 1)] /\ q_hist st b = [0; 1].
+Proof. exact frame_single_state_refuted. Qed.
+Print Assumptions C02_frame_single_state_refuted.
+
+(** What survives at read granularity, whatever ran before the frame and whatever the foreign stores
+    are: each READ is a value the counter held (an entry of the section-level history), and the
+    second read of the frame is [length ws] entries later - never older.  (Same caveat as
+    C02_pos_sections_any_writers: true of the machine by construction; the assumption carried is
+    sequential consistency of the loads and stores.) *)
+Theorem C02_frame_reads_real_and_ordered : forall (c0 : N -> N) (pre : list qstep) (b : N) (ws : list wr),
+  let st0 := q_run (q_init c0) pre in
+  let st := q_run (q_init c0) (pre ++ frame2 b ws) in
+  let i1 := Nat.pred (length (q_hist st0 b)) in
+  exists v1 v2,
+    q_log st = q_log st0 ++ [(b, i1, v1); (b, (i1 + length ws)%nat, v2)]
+    /\ nth_error (q_hist st b) i1 = Some v1
+    /\ nth_error (q_hist st b) (i1 + length ws)%nat = Some v2.
+Proof. exact frame_reads_real_and_ordered. Qed.
+Print Assumptions C02_frame_reads_real_and_ordered.
